@@ -170,6 +170,30 @@ def _mem_words(r, nbytes, e):
     return bytes(out)
 
 
+def _regname(l):
+    """name of the register a location belongs to (a sub-register slice counts as its register)"""
+    try:
+        if l._is_slc:
+            return l.x.ref if l.x._is_reg else None
+        return l.ref
+    except Exception:
+        return None
+
+
+def _has_operator(e, depth=0):
+    """does the expression compute something (operator, test, memory) rather than just move bits around?"""
+    try:
+        if depth > 6 or e._is_eqn or e._is_tst or e._is_mem or e._is_ptr:
+            return True
+        if e._is_slc:
+            return _has_operator(e.x, depth + 1)
+        if e._is_cmp:
+            return any(_has_operator(p, depth + 1) for p in e.parts.values())
+        return False
+    except Exception:
+        return True
+
+
 class Ctx(object):
     """one ISA: registers, global objects to restore, windows, spec pools"""
 
@@ -327,7 +351,7 @@ class Ctx(object):
                 for l in locations_of(e):
                     if l._is_reg:
                         if not (l.etype & regtype.PC):
-                            out.add(l.ref)
+                            out.add(_regname(l))
                     elif l._is_mem:
                         todo.append(l.a.base)
                     elif l._is_ptr:
@@ -415,24 +439,32 @@ class Ctx(object):
         try:
             if len(m.mmap._zones) > 1 or m.mmap._zones[None]._map:
                 return
-            outs = [(loc, v) for loc, v in m if loc._is_reg and loc.ref is not None and loc.ref not in special]
+            known = set(x.ref for x in self.regs)          # registers that hold a value in the concrete states
+            outs = [(loc, v) for loc, v in m if loc._is_reg and loc.ref in known and loc.ref not in special]
             written = set(loc.ref for loc, _ in outs)
             for loc, v in outs:
                 locs = locations_of(v)
                 if any(x._is_mem or x._is_ptr for x in locs):
                     continue
-                srcs = set(x.ref for x in locs if x._is_reg and x.ref is not None and x.ref not in special)
+                srcs = set(_regname(x) for x in locs if x._is_reg)
+                if not all(x is not None and x in known for x in srcs):
+                    continue
+                srcs = set(x for x in srcs if x not in special)
                 others = srcs - {loc.ref}
                 if len(others) == 1 and not (others & written):
                     if sp is not None and sp not in copyspecs:
                         copyspecs.append(sp)
-                    if len(copies.get(loc.ref, ())) < 8:
-                        copies.setdefault(loc.ref, []).append((list(others)[0], gx[0]))
+                    pure = not _has_operator(v)         # a plain move (possibly of a sub-register): the value stays small
+                    lst = copies.setdefault(loc.ref, [])
+                    if len(lst) < 8 or (pure and sum(1 for x in lst if x[2]) < 4):
+                        lst.append((list(others)[0], gx[0], pure))
                 if loc.ref not in srcs:
                     if sp is not None and sp not in wrspecs:
                         wrspecs.append(sp)
-                    if len(writers.get(loc.ref, ())) < 8:
-                        writers.setdefault(loc.ref, []).append(gx[0])
+                    small = bool(v._is_cst and v.v < 0x8000)
+                    lst = writers.setdefault(loc.ref, [])
+                    if len(lst) < 8 or (small and sum(1 for x in lst if x[1]) < 3):
+                        lst.append((gx[0], small, frozenset(srcs)))
         except Exception:
             pass
 
@@ -441,7 +473,7 @@ class Ctx(object):
         special = set(x.ref for x in self.regs if x.etype & (regtype.PC | regtype.FLAGS))
         return sorted(x for x in self.map_inputs(my) if x is not None and x not in special)
 
-    def gen_dep(self, mode, s, r, k, ntab=600, maxops=4):
+    def gen_dep(self, mode, s, r, k, ntab=1000, maxops=4):
         """a dependency-dense sequence ending with a sample Y of spec s: for every operand register a that Y
         reads (up to maxops, starting with the k-th),  X1: a := (value of) b  — so that Y's operand mentions the
         *input* b —  and then  X2: b := something else — so that b means two things in the block —, then Y.
@@ -450,7 +482,16 @@ class Ctx(object):
         (a := a + 4 …) instead.  returns (sequence, operand registers covered, how) or None"""
         copies, writers = self.writer_tables(mode, r, ntab)
         for _ in range(6):
-            got = self.sample_spec(mode, s, r)
+            # memory operands should point into the scratch windows: registers hold small values in every
+            # state, so a sample whose displacements are small is preferred (a few more tries)
+            got = None
+            for _t in range(10):
+                g2 = self.sample_spec(mode, s, r)
+                if g2 is None:
+                    continue
+                got = g2
+                if self.window_friendly(g2[2]):
+                    break
             if got is None:
                 continue
             ybs, _, my = got
@@ -461,15 +502,23 @@ class Ctx(object):
             first, second, covered, used, how = [], [], [], set(ops), set()
             sw = None
             for a in ops:
-                cands = [(b, bs) for (b, bs) in copies.get(a, ()) if b in writers and b not in used]
-                r.shuffle(cands)
+                # X1: a := b, plain moves first (the operand keeps a small value: memory operands stay in the windows)
+                # every (X1, X2) combination, best first: plain move into a, then plain move into b from a
+                # register not involved (else a small constant, else any overwrite that leaves the operands alone)
+                combos = []
+                for (b, x1, pure) in copies.get(a, ()):
+                    if b in used:
+                        continue
+                    x2s = [(bs, 0) for (c_, bs, p_) in copies.get(b, ()) if p_ and c_ not in used and c_ != a]
+                    x2s += [(bs, 1 if small else 2) for (bs, small, rd) in writers.get(b, ()) if not (rd & used)]
+                    for bs, rank in x2s:
+                        combos.append((0 if pure else 1, rank, r.random(), b, x1, bs))
+                combos.sort(key=lambda x: x[:3])
                 done = False
-                for b, x1 in cands:
-                    # the overwrite of b must leave the operand registers alone
-                    ws = [w for w in writers[b] if self._writes_only(mode, w, b, used)]
-                    if ws:
+                for _p, _rank, _rnd, b, x1, x2 in combos[:12]:
+                    if self._writes_only(mode, x2, b, used):
                         first.append(x1)
-                        second.append(r.choice(ws))
+                        second.append(x2)
                         used.add(b)
                         covered.append(a)
                         how.add("copy-then-clobber")
@@ -485,6 +534,36 @@ class Ctx(object):
             if covered:
                 return first + second + [ybs], covered, "+".join(sorted(how))
         return None
+
+    @staticmethod
+    def window_friendly(m):
+        """every memory access of the (single-instruction) map is register + small displacement, or a small
+        constant address"""
+        try:
+            ptrs = [loc for loc, _ in m if loc._is_ptr]
+            todo = [v for _, v in m] + [p.base for p in ptrs]
+            while todo:
+                e = todo.pop()
+                for l in locations_of(e):
+                    if l._is_mem:
+                        ptrs.append(l.a)
+                        todo.append(l.a.base)
+            for k, z in m.mmap._zones.items():
+                for o in z._map:
+                    if k is None and not (0 <= o.vaddr < LOW_N - 16):
+                        return False
+                    if k is not None and not (-0x7000 <= o.vaddr <= 0x7000):
+                        return False
+            for p in ptrs:
+                d = p.disp if isinstance(p.disp, int) else 0
+                if p.base._is_cst:
+                    if not (0 <= (p.base.v + d) < LOW_N - 16):
+                        return False
+                elif not (-0x7000 <= d <= 0x7000):
+                    return False
+            return True
+        except Exception:
+            return True
 
     def _writes_only(self, mode, bs, b, keep):
         """the instruction bs writes b and none of the registers in `keep` (pc / flags aside)"""
@@ -1448,14 +1527,18 @@ def _run_isa(ck, ctx, st, stats, r, quick, start, slice_s, slice_end, alarm, cas
     r.shuffle(dep_todo)
     dep_last = set()
     k0 = r.randrange(4)
-    for rnd in range(2 if quick else 3):
+    for rnd in range(5 if quick else 3):
         cut = False
+        # quick: rounds over all mnemonics (another spec, other registers and values each time) until 70% of the
+        # slice is used: this phase has the first claim on the budget
+        limit = 0.7 if quick else 0.45
         for mode, mnem, sps in dep_todo:
-            if time.time() >= start + (0.45 if quick else 0.4) * slice_s:
+            if time.time() >= start + limit * slice_s:
                 ck.count("phase1c-cut(budget).%s.round%d" % (name, rnd))
                 cut = True
                 break
-            g = ctx.gen_dep(mode, r.choice(sps), r, k0 + 2 * rnd)
+            g = ctx.gen_dep(mode, sps[rnd % len(sps)] if quick else sps[0], r, k0 + rnd,
+                            maxops=max(1, min(4, (maxlen[0] - 1) // 2)))
             if g is None:
                 ck.count("phase1c-no-dependent-sequence")
                 continue
@@ -1466,6 +1549,7 @@ def _run_isa(ck, ctx, st, stats, r, quick, start, slice_s, slice_end, alarm, cas
                 dep_last.add((mode, mnem))
         if cut:
             break
+        ck.count("phase1c-rounds-completed.%s" % name)
     st["phase1c_sequences"] = st["sequences"]
     st["phase1c_mnemonics_last"] = len(dep_last)
     st["phase1c_mnemonics_total"] = len(set((m, x) for m, x, _ in dep_todo))
@@ -1489,7 +1573,7 @@ def _run_isa(ck, ctx, st, stats, r, quick, start, slice_s, slice_end, alarm, cas
             others = r.sample(others, 120)
         todo += [(mode, sp) for sp in specs + others]
     for mode, sp in todo:
-        if time.time() >= start + 0.65 * slice_s:
+        if time.time() >= start + 0.85 * slice_s:
             ck.count("phase1-cut(budget).%s" % name)
             break
         got = None
@@ -1520,7 +1604,7 @@ def _run_isa(ck, ctx, st, stats, r, quick, start, slice_s, slice_end, alarm, cas
         else:
             todo += [(mode, sp) for _, _, sp in us]
     for mode, sp in todo:
-        if time.time() >= start + 0.85 * slice_s:
+        if time.time() >= start + 0.93 * slice_s:
             ck.count("phase1b-cut(budget).%s" % name)
             break
         bss = ctx.gen_pair(mode, sp, r)
